@@ -7,8 +7,10 @@ Import ListNotations.
 Local Open Scope Z_scope.
 Ltac Zify.zify_post_hook ::= Z.div_mod_to_equations.
 
-(* zero-width bit-fields have no storage: where c2mir notes them is irrelevant *)
-Definition norm (r : mrec) : mrec := if m_width r =? 0 then mkmrec 0 0 0 else r.
+(* zero-width bit-fields have no storage: where c2mir notes them is irrelevant (only that it does
+   not note them as a non-bit-field, bit_offset < 0) *)
+Definition norm (r : mrec) : mrec :=
+  if m_width r =? 0 then mkmrec 0 (if m_bit r <? 0 then -1 else 0) 0 else r.
 
 (* c2mir's state s represents the bit position p *)
 Record Inv (s : fstate) (p : Z) : Prop := {
